@@ -939,6 +939,40 @@ func enrollCaseBody(c *engine.Ctx, ec enrollCase) {
 			}
 		}
 	}
+	// ---- the node asks again after it re-keyed: same certificate key, a new encryption key and a new nonce,
+	// through the registration wrapper once more. Whatever the server makes of it (back ends differ on whether
+	// the record may be replaced), an answer is for the request it answers: only the new encryption key opens
+	// it and it echoes the new nonce.
+	if ec.Flow == world.FlowWrapper && s.RW != nil {
+		nenc, nnonce := world.NewX25519(), world.RandBytes(nodeenrollment.NonceSize)
+		info := world.BaseInfo(n.K, nenc.Pub, nnonce)
+		info.WrappedRegistrationInfo = world.SealRegInfo(s.NodeRegWrap(), &types.WrappingRegistrationFlowInfo{CertificatePublicKeyPkix: n.K.Pkix, Nonce: nnonce})
+		req3 := world.Sign(info, n.K.Priv)
+		var resp3 *types.FetchNodeCredentialsResponse
+		var err3 error
+		if p, st := engine.Guard(func() { resp3, err3 = registration.FetchNodeCredentials(s.Ctx, s.Store, req3, s.Opts()...) }); p != nil {
+			viol("panic:"+engine.LibraryFrame(st), fmt.Sprintf("FetchNodeCredentials panicked on a re-keyed request of an enrolled node: %v", p))
+			return
+		}
+		switch {
+		case err3 != nil || resp3 == nil || len(resp3.EncryptedNodeCredentials) == 0:
+			r.Count("rekeyed_refetch_refused:"+ec.Backend, 1)
+		default:
+			got3, ok3 := enrollOpen(resp3.EncryptedNodeCredentials, nenc.Priv, resp3.ServerEncryptionPublicKeyBytes, keyID)
+			switch {
+			case !ok3:
+				old := "no"
+				if _, okOld := enrollOpen(resp3.EncryptedNodeCredentials, n.Enc.Priv, resp3.ServerEncryptionPublicKeyBytes, keyID); okOld {
+					old = "yes"
+				}
+				viol("opened-with-wrong-key:rekeyed-refetch", "a second, well-signed wrapper-flow request of an enrolled node with a new encryption key was answered with credentials that the key of that request cannot open (the superseded key can: "+old+")")
+			case !bytes.Equal(got3.RegistrationNonce, nnonce):
+				viol("nonce-not-echoed:rekeyed-refetch", "a second wrapper-flow request with a new nonce was answered with credentials that echo another nonce")
+			default:
+				r.Count("rekeyed_refetch_answered_for_the_new_key:"+ec.Backend, 1)
+			}
+		}
+	}
 }
 
 func runEnroll(c *engine.Ctx) engine.Result {
